@@ -28,7 +28,7 @@ BOUNDSCHECK_TIERS = ("thorough",)
 
 
 def REQUIRED(tier):
-    return [f"t:{t}" for t in TRANSFORMS] + ["outputs_parsed", "outputs_compared", "spy:cwrite_calls", "regime:multi_block", "regime:subrange", "regime:multi_file_input", "regime:reader_with_history", "regime:single_read_over_64MiB"]
+    return [f"t:{t}" for t in TRANSFORMS] + ["outputs_parsed", "outputs_compared", "spy:cwrite_calls", "regime:multi_block", "regime:subrange", "regime:multi_file_input", "regime:reader_with_history", "regime:single_read_over_64MiB", "regime:default_range_arguments", "regime:output_name_held_a_longer_file", "mask:nothing_flagged"]
 
 
 def cases(tier, seed):
@@ -175,6 +175,14 @@ def run_case(case, ctx):
     out = os.path.join(d, "out.fil")
     kw = {"gulp": gulp, "quiet": True, "description": "v"}
     rkw = dict(kw, start=start, nsamps=nsamps)
+    if start == 0 and nsamps == case["N"] and case["pseed"] % 2:
+        rkw = dict(kw)            # the whole file through the documented defaults (no start, no nsamps)
+        ctx.count("regime:default_range_arguments")
+    if case["pseed"] % 5 == 1:
+        # the output name already exists from an earlier, longer product (a re-run with other parameters)
+        with open(out, "wb") as fh:
+            fh.write(open(paths[0], "rb").read() + bytes(range(256)) * 64)
+        ctx.count("regime:output_name_held_a_longer_file")
     label = f"{t}"
     # reader with a history: earlier, unrelated operations on the same reader object must not influence the transform
     prng = np.random.default_rng([case["pseed"], 77])
@@ -208,6 +216,9 @@ def run_case(case, ctx):
             outs = [(out, nch, nbits, seg[:, ::-1], "exact")]
         elif t == "apply_channel_mask":
             mask = rng.random(nch) < 0.4
+            if case["pseed"] % 4 == 2:
+                mask[:] = False        # clean data: nothing is flagged, the product is still a complete copy of the requested range
+                ctx.count("mask:nothing_flagged")
             mval = int(rng.integers(0, min(2 ** min(nbits, 8), 64)))
             if nbits == 32 and rng.random() < 0.5:   # any float is a legal fill for a 32-bit file
                 mval = float(rng.choice([-2.5, -0.75, -1000.0, 1.0e6, 0.125]))
